@@ -5,11 +5,11 @@ cd $WT || exit 2
 git checkout -q -- . ; git clean -fdq tests daacfind/tests src 2>/dev/null
 git apply $S/patch$N.diff || { echo "$P/$N: patch does not apply"; exit 1; }
 if cargo test --workspace --offline > /tmp/vs_$P_$N.suite 2>&1; then suite=pass; else suite=FAIL; fi
-tdir=tests; pkg="-p daachorse"; [ "$P" = "k" ] && { tdir=daacfind/tests; pkg="-p daacfind"; mkdir -p $tdir; }
+tdir=tests; pkg="-p daachorse"; grep -q "daacfind/" $S/patch$N.diff && { tdir=daacfind/tests; pkg="-p daacfind"; mkdir -p $tdir; }
 cp $S/demo$N.rs $tdir/seed_demo.rs
 if cargo test $pkg --offline --test seed_demo > /tmp/vs_$P_$N.with 2>&1; then with=pass; else with=fail; fi
 git apply -R $S/patch$N.diff
 if cargo test $pkg --offline --test seed_demo > /tmp/vs_$P_$N.without 2>&1; then without=pass; else without=FAIL; fi
-rm -f $tdir/seed_demo.rs; [ "$P" = "k" ] && rmdir daacfind/tests 2>/dev/null
+rm -f $tdir/seed_demo.rs; grep -q "daacfind/" $S/patch$N.diff && rmdir daacfind/tests 2>/dev/null
 git checkout -q -- . ; git clean -fdq tests daacfind/tests src 2>/dev/null
 echo "$P/$N: suite_with_patch=$suite demo_with_patch=$with demo_without_patch=$without  (want pass/fail/pass)"
